@@ -36,6 +36,17 @@ Theorem C17_compose : forall w a b, length (sw_dict w) <= sw_size w ->
   (w' <- sw_write w a ;; sw_write w' b) = sw_write w (a ++ b).
 Proof. exact sw_write_app. Qed.
 
+(* the contents depend only on the bytes written, not on how they were cut into writes: two histories with the
+   same concatenation leave the same window *)
+Theorem C17_chunking_independent : forall cap c1 c2 w1 w2, concat c1 = concat c2 ->
+  sw_writes (sw_make cap) c1 = Some w1 -> sw_writes (sw_make cap) c2 = Some w2 -> sw_dict w1 = sw_dict w2.
+Proof.
+  intros cap c1 c2 w1 w2 Hc H1 H2.
+  destruct (sw_suffix cap c1) as [w1' [E1 [D1 _]]]. destruct (sw_suffix cap c2) as [w2' [E2 [D2 _]]].
+  rewrite H1 in E1. rewrite H2 in E2. injection E1 as <-. injection E2 as <-.
+  rewrite D1, D2. unfold window_spec. rewrite Hc. reflexivity.
+Qed.
+
 Theorem C17_length_bounded : forall cap chunks w,
   sw_writes (sw_make cap) chunks = Some w -> length (sw_dict w) <= cap.
 Proof. exact sw_length_bounded. Qed.
@@ -74,6 +85,7 @@ Print Assumptions C17_suffix_bits.
 Print Assumptions C17_spec_meaning.
 Print Assumptions C17_disabled.
 Print Assumptions C17_compose.
+Print Assumptions C17_chunking_independent.
 Print Assumptions C17_length_bounded.
 Print Assumptions C17_conditions_from_source.
 Print Assumptions C17_capacity_from_source.
